@@ -3,6 +3,7 @@
 set -u
 patch=$1; shift
 cd /repo || exit 2
+if [ -n "$(git status --porcelain)" ]; then echo "/repo has uncommitted changes: commit them first"; exit 2; fi
 git apply "$patch" || { echo "patch does not apply"; exit 2; }
 for p in "$@"; do
   ( cd /verif && timeout 1800 ./check $p --tier quick 2>&1 | grep -E "VIOLATION|^\[$p\]" | head -4 )
